@@ -352,12 +352,7 @@ func c05r5(c *Ctx) {
 		if node.Block == nil || node.Block.Cond != node.AST || len(node.Succs) != 2 {
 			continue
 		}
-		has := false
-		for _, call := range f.NodeCalls(node) {
-			if call.Fn != nil && call.Fn.Name() == "MaxBlockWeight" {
-				has = true
-			}
-		}
+		has := derivesFromCall(f, node.AST, func(call ir.Call) bool { return call.Fn != nil && call.Fn.Name() == "MaxBlockWeight" })
 		if !has {
 			continue
 		}
